@@ -1,5 +1,6 @@
 import GoLucene.Proofs.JsonRoundTrip
 import GoLucene.Proofs.Laws
+import GoLucene.Proofs.JsonSql
 import GoLucene.TableCheck
 /-
   C12 — JSON encoding of expressions round-trips.
@@ -35,8 +36,11 @@ import GoLucene.TableCheck
   those definitions in Proofs/Laws.lean (`Laws.jsonLaws`, `Laws.numLaws`, `Laws.numLaws2`, `Laws.fmtLaws`; the
   law-free forms of the theorems below are `Laws.roundtrip_decodes`, `Laws.roundtrip_full`, `Laws.retype_idem`), so
   they are no longer part of the trusted base of C12 (the layers themselves are validated against Go's encoding/json
-  and strconv by `bin/check layers`).  NOT proved: identity of the inline / parameterized SQL of the
-  decoded tree (decided by the executable check on every explored query).
+  and strconv by `bin/check layers`).  The SQL clause (Proofs/JsonSql.lean): the decoded tree renders the IDENTICAL
+  parameterized SQL text with no exclusion at all (parameter values change kind only: 5.0 → 5), and the identical
+  inline SQL under `printNumOK` (the same exclusion as printing), each clause of which is proved necessary
+  (`render_needs_*` = findings K-json-float-exp, K-negzero, K-json-bigint-bound, K-json-bigfloat-bound);
+  quoted `*` / `/slash/` kind changes do not alter the SQL (`quoted_star_same_sql`, `quoted_slash_same_sql`).
 -/
 namespace GoLucene.C12
 open GoLucene.JsonRoundTrip GoLucene.Json GoLucene.NoPanic
@@ -73,5 +77,18 @@ theorem query_roundtrip (ip : Nat → Bool) (env : Env)
       (JsonParse.printNumOK e = true → strE ip false e' = strE ip false e) ∧
       (kindStable e = true → e' = e) ∧ (env.cls.slashNotAlnum → JsonParse.leavesStable e = true → e' = e) :=
   Laws.query_roundtrip ip env s df hs hdf e h hdp j hm
+
+/-- C12 over queries INCLUDING the SQL clauses -/
+theorem query_roundtrip_with_sql (ip : Nat → Bool) (env : Env)
+    (s df : Bytes) (hs : validUtf8 s = true) (hdf : validUtf8 df = true)
+    (e : Expr) (h : parseQuery env s df = .ok e) (hdp : depthOK e = true) (j : Bytes) (hm : marshalExpr e = .ok j) :
+    ∃ e', unmarshalTop j = .ok e' ∧ e' = retype e ∧ validateExpr e' = true ∧
+      (noNegZeroLeaf e = true → noBigIntBound e = true → marshalExpr e' = .ok j) ∧
+      (JsonParse.printNumOK e = true → strE ip false e' = strE ip false e) ∧
+      (JsonParse.printNumOK e = true → render pgFns e' = render pgFns e) ∧
+      JsonSql.sqlOf (renderParam pgFns e') = JsonSql.sqlOf (renderParam pgFns e) ∧
+      JsonSql.PRel JsonSql.paramRel (renderParam pgFns e) (renderParam pgFns e') ∧
+      (kindStable e = true → e' = e) ∧ (env.cls.slashNotAlnum → JsonParse.leavesStable e = true → e' = e) :=
+  JsonSql.query_roundtrip_sql ip env s df hs hdf e h hdp j hm
 
 end GoLucene.C12
